@@ -106,7 +106,7 @@ fn op_strategy() -> impl Strategy<Value = Op> {
 }
 
 pub fn script_strategy(max_ops: usize) -> impl Strategy<Value = Script> {
-    (image_strategy(), 0u8..5, prop_oneof![Just(None), any::<u8>().prop_map(Some)], prop::collection::vec(op_strategy(), 1..max_ops))
+    (image_strategy(), 0u8..5, prop_oneof![2 => Just(None), 3 => any::<u8>().prop_map(Some), 1 => Just(Some(255u8))], prop::collection::vec(op_strategy(), 1..max_ops))
         .prop_map(|(image, stack, psize, ops)| Script { image, stack, psize, ops })
 }
 
@@ -330,6 +330,35 @@ pub fn run(ctx: &Ctx) -> Evidence {
         return ev;
     }
     let known: Vec<String> = load_known("C13").into_iter().map(|k| k.signature).collect();
+    // ---- enumerated: execution out of the I/O page.  Every byte value as the opcode at each of the five
+    // externally settable addresses (digital input 0xF0, input registers 0xFC-0xFF), entered by a jump
+    // under the program-size limit 255, with three follow-up byte patterns in the other registers.
+    {
+        let mut scripts = vec![];
+        for (ai, addr) in [0xF0u8, 0xFC, 0xFD, 0xFE, 0xFF].iter().enumerate() {
+            for b in 0..=255u8 {
+                for follow in [0x02u8, 0x10, 0x2C] {
+                    let mut ops = vec![Op::DigitalIn(if ai == 0 { b } else { follow })];
+                    for i in 0..4u8 {
+                        ops.push(Op::Input(i, if ai as u8 == i + 1 { b } else { follow }));
+                    }
+                    ops.extend([Op::Edges(40), Op::KeyInt, Op::Continue, Op::Edges(40), Op::AsmStep, Op::AsmStep, Op::Continue, Op::AsmStep]);
+                    // LDSP 0xE0 ; JR to the address (MOV PC, #addr)
+                    let image = assemble(&[Tm::LdSp(0xE0), Tm::LdConst(3, *addr)]);
+                    scripts.push(Script { image, stack: (b % 5), psize: Some(255), ops });
+                }
+            }
+        }
+        let res = par_chunks(ctx.threads, scripts.len(), |k| run_script(&scripts[k]).0);
+        for (k, v) in res.into_iter().enumerate() {
+            ev.evaluations += 1;
+            ev.nontrivial(&(0x10F0u32, k));
+            if let Verdict::Fail(s, d) = v {
+                ev.violation("script", &s, d, serde_json::to_value(&scripts[k]).unwrap());
+            }
+        }
+        ev.class("enumerated:opcode-fetched-from-io-page(address x byte x follow-up)", scripts.len() as u64);
+    }
     let n: u64 = ctx.tier.pick(150_000, 5_000_000);
     let collected = std::sync::Mutex::new(Evidence::new("", ""));
     let res = par_search(ctx.threads, 32, ctx.seed, n, || script_strategy(120), &known, |c, first, _| {
